@@ -14,9 +14,12 @@ for n in names:
         m = re.match(r"\+\+\+ b/(\S+)", l)
         if m and m.group(1) not in files: files.append(m.group(1))
 tmp = tempfile.mkdtemp()
+clean = set()   # files whose working-tree version is HEAD's: nothing to restore afterwards
 for f in files:
     os.makedirs(os.path.dirname(f"{tmp}/{f}"), exist_ok=True)
     shutil.copy(f"{REPO}/{f}", f"{tmp}/{f}")
+    if sh("git", "diff", "--quiet", "HEAD", "--", f).returncode == 0:
+        clean.add(f)
 print(sh("git", "checkout", "--", *files).stdout)
 ok = True
 for n in names:
@@ -31,7 +34,7 @@ for n in names:
     print(n, "->", sh("git", "log", "--format=%h %s", "-1").stdout.strip(), r.stdout.strip())
 for f in files:
     a, b = open(f"{REPO}/{f}").read(), open(f"{tmp}/{f}").read()
-    if a != b:
+    if a != b and f not in clean:
         print("RESIDUAL difference in", f, "- working-tree version restored (uncommitted)")
         shutil.copy(f"{tmp}/{f}", f"{REPO}/{f}")
 shutil.rmtree(tmp)
